@@ -183,6 +183,7 @@ structure InvD (cfg : Config) (s : St) : Prop where
     c.out ≠ .value ∧ c.ph.pastX = true ∧ (c.ph.pastStop = true → s.ownStop = true)
   ffk : ∀ k, s.firstFail = some k → k < s.ch.length
   doeff : s.doe = false → s.firstFail = none
+  winner : s.doe = true → s.firstFail ≠ none
   osn : ∀ c ∈ s.ch, c.ph = .notifying → s.ownStop = true
   nd2 : s.notifyDone = true → (∀ c ∈ s.ch, c.cbst ≠ 0) ∧ s.ownStop = true
   gone : ∀ c ∈ s.ch, c.cbst ≠ 0 → c.ph = .run → c.notified = true
@@ -241,8 +242,9 @@ macro_rules
 syntax "invd_fin" : tactic
 macro_rules
   | `(tactic| invd_fin) => `(tactic| (
-      refine ⟨?_, ?_, ?_, ?_, ?_, ?_, ?_, ?_⟩
+      refine ⟨?_, ?_, ?_, ?_, ?_, ?_, ?_, ?_, ?_⟩
       · invd_idx
+      · invd_plain
       · invd_plain
       · invd_plain
       · invd_mem
@@ -255,7 +257,7 @@ theorem invD_step {cfg : Config} {s s' : St} (ha : InvA cfg.n s) (hb : InvB cfg 
     (hs : Step cfg s s') : InvD cfg s' := by
   have hrz := hb.rz
   obtain ⟨hlen, hrc, hz, hone⟩ := ha
-  obtain ⟨ff, ffk, doeff, osn, nd2, gone, es1, es2⟩ := hd
+  obtain ⟨ff, ffk, doeff, winner, osn, nd2, gone, es1, es2⟩ := hd
   cases hs with
   | cClaim j c o hc hp ho =>
     have hm := mem_of_get hc
@@ -349,7 +351,8 @@ theorem invD_step {cfg : Config} {s s' : St} (ha : InvA cfg.n s) (hb : InvB cfg 
 
 
 theorem invD_init (cfg : Config) : InvD cfg (init cfg) := by
-  refine ⟨by simp [init], by simp [init], by simp [init], ?_, by simp [init], ?_, by simp [init], by simp [init]⟩
+  refine ⟨by simp [init], by simp [init], by simp [init], by simp [init], ?_, by simp [init], ?_, by simp [init],
+    by simp [init]⟩
   · intro c hc hp
     rw [mem_replicate_init hc] at hp
     simp [Child.init] at hp
